@@ -176,3 +176,16 @@ def lookalike_bytes():
     """Opaque byte strings that look like text a convenience layer might want to interpret: hex digits, whitespace and
     NUL at the ends, literals, addresses, a UTF-8 byte order mark."""
     return st.sampled_from(LOOKALIKES)
+
+
+LOOKALIKE_KEYS32 = [
+    b"0123456789abcdef0123456789abcdef", b"1" * 32, b" " * 32, b"DEADBEEFdeadbeefDEADBEEFdeadbeef", b"cafe babe cafe babe cafe babe\n\t\n",
+    b"0x" + b"1f" * 15, b"\n" + b"a1" * 15 + b"\n", b"correct horse battery staple 32b", b"\x00" * 31 + b"\n", b" " + b"\x01" * 30 + b" ",
+    b"0" * 32, b"KwDiBf89QgGbjEhKnhXJuH7LrciVrZi3", b"00" * 16,
+]
+assert all(len(k) == 32 and 0 < int.from_bytes(k, "big") < _N for k in LOOKALIKE_KEYS32)
+
+
+def lookalike_keys32():
+    """Valid 32-byte private keys / seeds whose bytes read as text: hex digits, whitespace, a WIF fragment."""
+    return st.sampled_from(LOOKALIKE_KEYS32)
